@@ -77,6 +77,15 @@ def _forms(name, default_cs, new_names=()):
         # odd kind, not the default
         from oslo_policy import _parser
         forms.append(('lookalike', [[str(_parser.parse_rule(default_cs))]]))
+        # the default itself, written in the legacy list-of-lists syntax
+        # (equal to the default: the tools may comment it out / report it)
+        as_list = {'role:a or role:b and role:c': [['role:a'],
+                                                   ['role:b', 'role:c']],
+                   'role:p': [['role:p']],
+                   'role:q or role:x': [['role:q'], ['role:x']],
+                   'role:c': [['role:c']]}.get(default_cs)
+        if as_list:
+            forms.append(('listdefault', as_list))
     for nn in new_names:
         forms.append(('alias:' + nn, 'rule:%s' % nn))
         forms.append(('alias:(%s)' % nn, '( rule:%s )' % nn))
@@ -100,19 +109,21 @@ def _file_for(ctx, kind, tool, small=False):
             rules[name] = val
     if kind == 'plain':
         pick('m', 'role:a or role:b and role:c',
-             allow=['absent', 'default', 'regrouped', 'lookalike'] if small
+             allow=['absent', 'default', 'regrouped', 'lookalike',
+                    'listdefault'] if small
              else ['absent', 'default', 'variant', 'regrouped', 'reordered',
-                   'lookalike'])
+                   'lookalike', 'listdefault'])
     if small:
         pick('p', 'role:p', allow=['absent', 'default', 'variant',
                                    'different', 'list', 'list-blank'])
         pick('q', 'role:q or role:x', allow=['absent', 'variant', 'dquoted',
-                                             'lookalike'])
+                                             'lookalike', 'listdefault'])
         pick('u', None, allow=['absent', 'list', 'dquoted', 'unicode'])
     else:
         pick('p', 'role:p')
         pick('q', 'role:q or role:x', allow=['absent', 'default', 'variant',
-                                             'list', 'dquoted', 'lookalike'])
+                                             'list', 'dquoted', 'lookalike',
+                                             'listdefault'])
         pick('u', None, allow=['absent', 'different', 'list', 'dquoted',
                                'unicode'])
     if kind in ('renamed', 'all'):
